@@ -46,39 +46,49 @@ Proof. vm_compute. repeat split; discriminate. Qed.
 Lemma pdf_tab_patterns_pinned : pdf_codewords = pdfs_patterns.
 Proof. vm_compute. reflexivity. Qed.
 
-Lemma pdf_tab_patterns_shape :
-  length pdfs_patterns = 3%nat /\ Forall (fun t => length t = 929%nat) pdfs_patterns.
-Proof. split; [reflexivity | repeat constructor]. Qed.
+(* the table of cluster 3t *)
+Definition pdfs_cluster (t : Z) : list Z :=
+  if t =? 0 then pdfs_cluster0 else if t =? 1 then pdfs_cluster3 else pdfs_cluster6.
+
+Lemma pdfs_patterns_nth t : 0 <= t < 3 ->
+  nth_error pdfs_patterns (Z.to_nat t) = Some (pdfs_cluster t).
+Proof.
+  intros H. assert (t = 0 \/ t = 1 \/ t = 2) as [->| [->| ->]] by lia; reflexivity.
+Qed.
+
+Lemma pdf_tab_patterns_length t : 0 <= t < 3 -> length (pdfs_cluster t) = 929%nat.
+Proof.
+  intros H. assert (t = 0 \/ t = 1 \/ t = 2) as [->| [->| ->]] by lia; vm_compute; reflexivity.
+Qed.
 
 (* every pattern of table t is a well-formed codeword pattern of cluster 3t *)
-Definition pdf_patterns_wf_b : bool :=
-  forallb (fun ct => forallb (pdfs_pattern_ok (fst ct)) (snd ct)) (combine [0; 3; 6] pdfs_patterns).
+Lemma pdf_tab_patterns_wellformed :
+  forallb (pdfs_pattern_ok 0) pdfs_cluster0 = true /\
+  forallb (pdfs_pattern_ok 3) pdfs_cluster3 = true /\
+  forallb (pdfs_pattern_ok 6) pdfs_cluster6 = true.
+Proof. repeat split; vm_cast_no_check (eq_refl true). Qed.
 
-Lemma pdf_tab_patterns_wellformed : pdf_patterns_wf_b = true.
-Proof. vm_compute. reflexivity. Qed.
-
-Lemma pdf_tab_pattern_ok t tab w p :
-  0 <= t < 3 -> nth_error pdfs_patterns (Z.to_nat t) = Some tab ->
-  nth_error tab w = Some p -> pdfs_pattern_ok (3 * t) p = true.
+Lemma pdf_tab_pattern_ok t p :
+  0 <= t < 3 -> In p (pdfs_cluster t) -> pdfs_pattern_ok (3 * t) p = true.
 Proof.
-  intros Ht Htab Hp. pose proof pdf_tab_patterns_wellformed as H.
-  unfold pdf_patterns_wf_b in H. rewrite forallb_forall in H.
-  assert (In (3 * t, tab) (combine [0; 3; 6] pdfs_patterns)) as Hin.
-  { assert (t = 0 \/ t = 1 \/ t = 2) as [->| [->| ->]] by lia; simpl in Htab; inversion Htab; subst tab;
-      unfold pdfs_patterns; simpl; auto. }
-  specialize (H _ Hin). simpl in H. rewrite forallb_forall in H.
-  apply H. eapply nth_error_In; eauto.
+  intros Ht Hp. destruct pdf_tab_patterns_wellformed as (H0 & H1 & H2).
+  rewrite forallb_forall in H0, H1, H2.
+  assert (t = 0 \/ t = 1 \/ t = 2) as [->| [->| ->]] by lia;
+    [change (pdfs_cluster 0) with pdfs_cluster0 in Hp | change (pdfs_cluster 1) with pdfs_cluster3 in Hp
+     | change (pdfs_cluster 2) with pdfs_cluster6 in Hp]; [apply H0 | apply H1 | apply H2]; exact Hp.
 Qed.
 
 (* pairwise distinct within a cluster: pattern -> value is a function *)
-Lemma pdf_tab_patterns_nodup_b : forallb pdf_nodupb pdfs_patterns = true.
-Proof. vm_compute. reflexivity. Qed.
+Lemma pdf_tab_patterns_nodup_b :
+  pdf_nodupb pdfs_cluster0 = true /\ pdf_nodupb pdfs_cluster3 = true /\ pdf_nodupb pdfs_cluster6 = true.
+Proof. repeat split; vm_cast_no_check (eq_refl true). Qed.
 
-Lemma pdf_tab_patterns_nodup t tab :
-  nth_error pdfs_patterns t = Some tab -> NoDup tab.
+Lemma pdf_tab_patterns_nodup t : 0 <= t < 3 -> NoDup (pdfs_cluster t).
 Proof.
-  intros H. apply pdf_nodupb_NoDup. pose proof pdf_tab_patterns_nodup_b as Hb.
-  rewrite forallb_forall in Hb. apply Hb. eapply nth_error_In; eauto.
+  intros Ht. destruct pdf_tab_patterns_nodup_b as (H0 & H1 & H2).
+  assert (t = 0 \/ t = 1 \/ t = 2) as [->| [->| ->]] by lia;
+    [change (pdfs_cluster 0) with pdfs_cluster0 | change (pdfs_cluster 1) with pdfs_cluster3
+     | change (pdfs_cluster 2) with pdfs_cluster6]; apply pdf_nodupb_NoDup; assumption.
 Qed.
 
 (* start / stop patterns: values, module counts and element widths *)
@@ -106,7 +116,7 @@ Definition pdf_factors_gen_b : bool :=
     end) pdf_levels.
 
 Lemma pdf_tab_factors_generator : pdf_factors_gen_b = true.
-Proof. vm_compute. reflexivity. Qed.
+Proof. vm_cast_no_check (eq_refl true). Qed.
 
 Lemma pdf_tab_factors_count : length pdf_correction_factors = 9%nat.
 Proof. reflexivity. Qed.
@@ -131,7 +141,7 @@ Definition pdf_factors_roots_b : bool :=
     end) pdf_levels.
 
 Lemma pdf_tab_factors_roots : pdf_factors_roots_b = true.
-Proof. vm_compute. reflexivity. Qed.
+Proof. vm_cast_no_check (eq_refl true). Qed.
 
 (* ---------- text sub-mode tables ---------- *)
 
